@@ -3,6 +3,7 @@
 // watchdog (a history that hangs is a reported outcome), part report in the same JSON shape as pmc.
 #pragma once
 #include <errno.h>
+#include <fcntl.h>
 #include <signal.h>
 #include <stdarg.h>
 #include <stdio.h>
@@ -47,6 +48,7 @@ struct options
     std::string property, part = "seq", tier = "quick", evidence, replay_dir = "replays", only, replay;
     std::set<std::string> known;
     double hang_timeout_s = 20;
+    bool quiet_child = false;    // send the worker's stderr to /dev/null (library logging noise)
 };
 
 inline shared* g = nullptr;
@@ -180,6 +182,7 @@ inline int main_loop(options& o, const std::vector<spec>& specs, const char* rul
         pid_t c = fork();
         if (c == 0)
         {
+            if (o.quiet_child) { int fd = open("/dev/null", O_WRONLY); if (fd >= 0) { dup2(fd, 2); close(fd); } }
             try { specs[si].run(thorough); }
             catch (violation_exception&) {}
             g->done = 1;
